@@ -312,9 +312,7 @@ fn compile_mint_block(tx: &tir::Tx) -> Result<Option<primitives::Mint>, Error> {
         .map(|x| compile_native_asset_for_mint(x, false))
         .collect::<Result<Vec<_>, _>>()?;
 
-    let mints = asset_math::aggregate_assets(mints);
-
-    let burns = tx
+    let burns: Vec<_> = tx
         .burns
         .iter()
         .map(|x| coercion::expr_into_assets(&x.amount))
@@ -324,9 +322,13 @@ fn compile_mint_block(tx: &tir::Tx) -> Result<Option<primitives::Mint>, Error> {
         .map(|x| compile_native_asset_for_mint(x, true))
         .collect::<Result<Vec<_>, _>>()?;
 
-    let burns = asset_math::aggregate_assets(burns);
-
+    // the terms are folded per group and then combined: every partial total has to fit
+    ensure_mint_totals_fit(mints.iter())?;
+    ensure_mint_totals_fit(burns.iter())?;
     ensure_mint_totals_fit(mints.iter().chain(burns.iter()))?;
+
+    let mints = asset_math::aggregate_assets(mints);
+    let burns = asset_math::aggregate_assets(burns);
 
     let all = match (mints, burns) {
         (Some(mints), Some(burns)) => asset_math::aggregate_assets([mints, burns]),
